@@ -231,14 +231,14 @@ theorem scanReal_writeIntRadix {r : Nat} (h2 : 2 ≤ r) (h16 : r ≤ 16) (i : In
     simp only [List.length_cons]
     congr 1; omega
 
-theorem stringToNumber_of {r : Nat} (s : Text) (hq : SignedQuiet r s) (lit : RealLit)
-    (hp : parseRealPlain r s = some lit) :
-    stringToNumber (some r) s = (match litToNum lit with
+theorem stringToNumberC_of {r : Nat} (c : Bool) (s : Text) (hq : SignedQuiet r s) (lit : RealLit)
+    (hp : parseRealPlain r s = some lit) (hz : zeroDen lit = false) :
+    stringToNumberC c (some r) s = (match litToNumC c lit with
       | .ok v => .ok (some v) | .err e => .err e | .panic => .panic) := by
-  obtain ⟨c, tl, hs, hc⟩ := hq.first
-  unfold stringToNumber
-  have : radixOf ((some r).getD 10) s = (s, r) := by rw [hs]; exact radixOf_noHash _ c tl hc
-  simp only [this, parseNumberBody_plain r s lit hq.chars hq.signs hp]
+  obtain ⟨ch, tl, hs, hc⟩ := hq.first
+  unfold stringToNumberC
+  have : radixOf ((some r).getD 10) s = (s, r) := by rw [hs]; exact radixOf_noHash _ ch tl hc
+  simp only [this, parseNumberBody_plain r s lit hq.chars hq.signs hp, hz, Bool.and_false, Bool.false_eq_true, if_false]
   rfl
 
 theorem parseRealPlain_int {r : Nat} (h2 : 2 ≤ r) (h16 : r ≤ 16) (i : Int) :
@@ -306,28 +306,33 @@ theorem fromQ_reduced {n d : Int} (hd : 1 < d) (hg : Int.gcd n d = 1)
   simp only [hd1, ↓reduceIte, hf, Bool.false_eq_true]
 
 /-- `real_literal_to_steelval` of the literal that stands for a canonical value is that value. -/
-theorem litToNum_numToLit {x : Num} (hx : Canonical x) : litToNum (numToLit x) = .ok x := by
+theorem litToNumC_numToLit (c : Bool) {x : Num} (hx : Canonical x) : litToNumC c (numToLit x) = .ok x := by
   cases x with
   | fix n =>
     have : fitsIsize n = true := hx
-    simp [litToNum, numToLit, normInt, this]
+    simp [litToNumC, numToLit, normInt, this]
   | big n =>
     have : fitsIsize n = false := hx
-    simp [litToNum, numToLit, normInt, this]
+    simp [litToNumC, numToLit, normInt, this]
   | rat32 n d =>
     obtain ⟨hd, hg, hn32, hd32⟩ := hx
     have hd0 : d ≠ 0 := by omega
     have hd1 : d ≠ 1 := by omega
-    simp only [litToNum, numToLit, fitsI32_fitsIsize hn32, fitsI32_fitsIsize hd32, Bool.and_self, ↓reduceIte, hd0,
+    simp only [litToNumC, numToLit, fitsI32_fitsIsize hn32, fitsI32_fitsIsize hd32, Bool.and_self, ↓reduceIte, hd0,
       hn32, hd32, ratio32New_reduced (by omega) hg hn32 hd32, Res.bind_ok, Res.pure_eq, normR32, hd1]
   | bigrat n d =>
     obtain ⟨hd, hg, hf⟩ := hx
     have hd0 : d ≠ 0 := by omega
-    simp only [litToNum, numToLit]
+    have hdb : (d == 0) = false := by simp [hd0]
+    simp only [litToNumC, numToLit]
     split
     · simp only [hd0, ↓reduceIte, hf, Bool.false_eq_true]
       exact fromQ_reduced hd hg hf
-    · exact fromQ_reduced hd hg hf
+    · simp only [hdb, Bool.and_false, Bool.false_eq_true, ↓reduceIte]
+      exact fromQ_reduced hd hg hf
+
+theorem litToNum_numToLit {x : Num} (hx : Canonical x) : litToNum (numToLit x) = .ok x :=
+  litToNumC_numToLit _ hx
 
 /-- a folded result written back as a literal and compiled again is the same value. -/
 theorem readBack_canonical {x : Num} (hx : Canonical x) : readBack x = .ok x := by
@@ -339,29 +344,36 @@ theorem readBack_canonical {x : Num} (hx : Canonical x) : readBack x = .ok x := 
 
 /-! ## the round trip -/
 
-theorem roundtrip_radix {r : Nat} (h2 : 2 ≤ r) (h16 : r ≤ 16) {x : Num} (hx : Canonical x) :
-    stringToNumber (some r) (numberToString r x) = .ok (some x) := by
-  have hlit := litToNum_numToLit hx
+theorem roundtrip_radixC (c : Bool) {r : Nat} (h2 : 2 ≤ r) (h16 : r ≤ 16) {x : Num} (hx : Canonical x) :
+    stringToNumberC c (some r) (numberToString r x) = .ok (some x) := by
+  have hlit := litToNumC_numToLit c hx
   cases x with
   | fix n =>
     rw [show numberToString r (.fix n) = writeIntRadix r n from rfl,
-      stringToNumber_of _ (signedQuiet_int h2 h16 n) _ (parseRealPlain_int h2 h16 n)]
+      stringToNumberC_of c _ (signedQuiet_int h2 h16 n) _ (parseRealPlain_int h2 h16 n) rfl]
     simp only [numToLit] at hlit; rw [hlit]
   | big n =>
     rw [show numberToString r (.big n) = writeIntRadix r n from rfl,
-      stringToNumber_of _ (signedQuiet_int h2 h16 n) _ (parseRealPlain_int h2 h16 n)]
+      stringToNumberC_of c _ (signedQuiet_int h2 h16 n) _ (parseRealPlain_int h2 h16 n) rfl]
     simp only [numToLit] at hlit; rw [hlit]
   | rat32 n d =>
     have hd : 0 ≤ d := by have := hx.1; omega
+    have hd1 := hx.1
     obtain ⟨m, rfl⟩ := Int.eq_ofNat_of_zero_le hd
+    have hz : zeroDen (.rat n (m : Int)) = false := by simp [zeroDen]; omega
     rw [show numberToString r (.rat32 n (m : Int)) = writeIntRadix r n ++ '/' :: dg r m from rfl,
-      stringToNumber_of _ (signedQuiet_rat h2 h16 n m) _ (parseRealPlain_rat h2 h16 n m)]
+      stringToNumberC_of c _ (signedQuiet_rat h2 h16 n m) _ (parseRealPlain_rat h2 h16 n m) hz]
     simp only [numToLit] at hlit; rw [hlit]
   | bigrat n d =>
     have hd : 0 ≤ d := by have := hx.1; omega
+    have hd1 := hx.1
     obtain ⟨m, rfl⟩ := Int.eq_ofNat_of_zero_le hd
+    have hz : zeroDen (.rat n (m : Int)) = false := by simp [zeroDen]; omega
     rw [show numberToString r (.bigrat n (m : Int)) = writeIntRadix r n ++ '/' :: dg r m from rfl,
-      stringToNumber_of _ (signedQuiet_rat h2 h16 n m) _ (parseRealPlain_rat h2 h16 n m)]
+      stringToNumberC_of c _ (signedQuiet_rat h2 h16 n m) _ (parseRealPlain_rat h2 h16 n m) hz]
     simp only [numToLit] at hlit; rw [hlit]
+
+theorem roundtrip_radix {r : Nat} (h2 : 2 ≤ r) (h16 : r ≤ 16) {x : Num} (hx : Canonical x) :
+    stringToNumber (some r) (numberToString r x) = .ok (some x) := roundtrip_radixC _ h2 h16 hx
 
 end SteelVerif.C10
